@@ -10,7 +10,7 @@
  *         B  like C, Y like X, but the handler serves raw BYTES and the records are read as bytes: hawk_rtx_readiobytes
  *            through BEGIN { while ((getbline x) > 0) print NR, FNR, FILENAME, "[" x "]" }  (handler command READ_BYTES)
  *         F  std.c console chain + sio/tio (UTF-8 decoding, 2048-byte read buffer) over real temporary files in <scratch>
- *            (argv[1]); G = the same read with getbline.  in.pos/len are printed but the check ignores them (sio decides).
+ *            (argv[1]); G = the same read with getbline.  in.pos/len are compared too: the model computes what tio hands to rio.
  *         P  std.c console + sio/tio reading standard input, which is a real pipe fed by a writer thread with the BYTES of
  *            the single file under the given chunking in bytes: every read(2) returns exactly one chunk (the writer
  *            waits until the pipe is empty); Q = the same read with getbline; Z = all 2^(n-1) byte chunkings (like X).
@@ -26,6 +26,12 @@
  *            C<k>   { PR($0); if ((getline y < "side") > 0) SP; if (NR % k == 0) { close("side"); sn = 0 } }   R<k>: close("side", "r")
  *            K<k>   like S, the side stream is the command pipe "cat side" (std kinds only);  L<k> like S with `getline < "side"` into $0
  *            byte kinds: (none), S<k>, C<k> with getbline inside BEGIN's while ((getbline x) > 0) loop
+ *            F      { s = NF ":" split($0, q); for (i = 1; i <= NF; i++) s = s "|" $i "=" q[i]; PR(s) }   fields by FS (no model)
+ *   MODE  H<op>;<op>;...[!<regex trees for the model>]   a history of assignments in BEGIN instead of `RS = ...`:
+ *            c<hex>  CONVFMT = "<text>"      g0 | g1  IGNORECASE = 0 | 1      R  RS = RS      F  FS = FS
+ *            r<val>  RS = <val>              f<val>   FS = <val>
+ *            val: n (an unset variable) | s<hex> "string" | b<hex> @b"bytes" | k<hex> 'c' | i<hex of the literal> integer
+ *                 | d<hex of the literal>[~<hex fmt>-<hex text>]* floating-point literal (the table is for the model)
  *   FILE  `%a` = an ARGV entry `vv=1` (assignment, no file), `%e` = an empty ARGV entry, name `-` = standard input fed through
  *            the pipe (std kinds only)
  *   program:  BEGIN { RS = ...; ORS = "\001" } { print NR, FNR, FILENAME, "[" $0 "]" }
@@ -274,7 +280,7 @@ static int hexval (int c)
 }
 
 static hawk_t* cached_hawk;
-static char cached_key[512];
+static char cached_key[2048];
 
 /* decode one UTF-8 sequence (1..3 bytes; anything else is taken as a single byte) */
 static size_t utf8_dec (const unsigned char* p, size_t n, unsigned int* c)
@@ -297,14 +303,77 @@ static void wput (const char* a)
 	while (*a && wlen < HAWK_COUNTOF(wprog) - 1) wprog[wlen++] = (unsigned char)*a++;
 }
 
+/* a string literal from the hex of its UTF-8 bytes; *h is advanced past the hex */
+static void wput_str (const char** h)
+{
+	unsigned char rsb[256];
+	size_t nb = 0, k = 0;
+	while (hexval((*h)[0]) >= 0 && hexval((*h)[1]) >= 0 && nb < sizeof(rsb))
+	{
+		rsb[nb++] = (unsigned char)(hexval((*h)[0]) * 16 + hexval((*h)[1]));
+		*h += 2;
+	}
+	wput ("\"");
+	while (k < nb)
+	{
+		unsigned int c;
+		k += utf8_dec(&rsb[k], nb - k, &c);
+		if (c < 0x80)
+		{
+			char esc[8];
+			snprintf (esc, sizeof(esc), "\\%03o", c);
+			wput (esc);
+		}
+		else if (wlen < HAWK_COUNTOF(wprog) - 1) wprog[wlen++] = (hawk_ooch_t)c; /* the character itself */
+	}
+	wput ("\"");
+}
+
+/* a byte string literal @b"\xHH..." (the caller has written @b) */
+static void wput_bstr (const char** h)
+{
+	wput ("\"");
+	while (hexval((*h)[0]) >= 0 && hexval((*h)[1]) >= 0)
+	{
+		char esc[8];
+		snprintf (esc, sizeof(esc), "\\x%c%c", (*h)[0], (*h)[1]);
+		wput (esc);
+		*h += 2;
+	}
+	wput ("\"");
+}
+
+/* a character literal 'c' */
+static void wput_chr (const char** h)
+{
+	unsigned char rsb[8];
+	size_t nb = 0;
+	unsigned int c = 0;
+	while (hexval((*h)[0]) >= 0 && hexval((*h)[1]) >= 0 && nb < sizeof(rsb))
+	{
+		rsb[nb++] = (unsigned char)(hexval((*h)[0]) * 16 + hexval((*h)[1]));
+		*h += 2;
+	}
+	if (nb > 0) utf8_dec (rsb, nb, &c);
+	wput ("'");
+	if (c < 0x80)
+	{
+		char esc[8];
+		snprintf (esc, sizeof(esc), "\\%03o", c);
+		wput (esc);
+	}
+	else if (wlen < HAWK_COUNTOF(wprog) - 1) wprog[wlen++] = (hawk_ooch_t)c;
+	wput ("'");
+}
+
 static hawk_t* get_hawk (const char* modeprog, int bytes)
 {
 	/* mode: D | S<hex of one character> | P0 | P1 | R<hex of the RS text>:<ast> */
 	hawk_t* hawk;
 	hawk_parsestd_t psin[2];
 	int crlf = 0;
-	char key[512];
-	char mode[400];
+	char key[2048];
+	char mode[2048];
 	const char* prog = "";
 	int k = 1;
 	char tmp[1024];
@@ -345,6 +414,47 @@ static hawk_t* get_hawk (const char* modeprog, int bytes)
 		}
 		wput ("\"; ");
 	}
+	else if (mode[0] == 'H')
+	{
+		/* a history of assignments to RS, FS, CONVFMT, IGNORECASE: ops joined by `;`, see vlib/props/c04.py (hist_word);
+		 * what follows `!` (the regex trees for the model) is not for the real code */
+		const char* h = mode + 1;
+		while (*h && *h != '!')
+		{
+			const char* var = HAWK_NULL;
+			if (*h == ';') { h++; continue; }
+			if (*h == 'c') { var = "CONVFMT"; h++; wput ("CONVFMT = "); wput_str (&h); wput ("; "); continue; }
+			if (*h == 'g') { wput ("IGNORECASE = "); wput ((h[1] == '1')? "1": "0"); wput ("; "); h += 2; continue; }
+			if (*h == 'R') { wput ("RS = RS; "); h++; continue; }
+			if (*h == 'F') { wput ("FS = FS; "); h++; continue; }
+			if (*h == 'r') var = "RS";
+			else if (*h == 'f') var = "FS";
+			else return HAWK_NULL;
+			h++;
+			wput (var); wput (" = ");
+			switch (*h++)
+			{
+				case 'n': wput ("uu"); break;                                   /* a variable never assigned */
+				case 's': wput_str (&h); break;
+				case 'b': wput ("@b"); wput_bstr (&h); break;
+				case 'k': wput_chr (&h); break;
+				case 'i':
+				case 'd':
+				{
+					/* the literal as it is written; a float carries `~<fmt>-<text>` entries for the model */
+					while (hexval(h[0]) >= 0 && hexval(h[1]) >= 0)
+					{
+						if (wlen < HAWK_COUNTOF(wprog) - 1) wprog[wlen++] = (hawk_ooch_t)(hexval(h[0]) * 16 + hexval(h[1]));
+						h += 2;
+					}
+					while (*h && *h != ';' && *h != '!') h++;
+					break;
+				}
+				default: return HAWK_NULL;
+			}
+			wput ("; ");
+		}
+	}
 	else return HAWK_NULL;
 
 #define PR(x) "print NR, FNR, FILENAME, \"[\" " x " \"]\""
@@ -372,6 +482,8 @@ static hawk_t* get_hawk (const char* modeprog, int bytes)
 		switch (prog[0])
 		{
 			case '\0': wput ("{ " PR("$0") " }"); break;
+			case 'F': /* the fields of split_record and of split() with FS, in one text */
+				wput ("{ s = NF \":\" split($0, q); for (i = 1; i <= NF; i++) s = s \"|\" $i \"=\" q[i]; " PR("s") " }"); break;
 			case 'N': snprintf (tmp, sizeof(tmp), "{ " PR("$0") "; if (FNR == %d) nextfile }", k); wput (tmp); break;
 			case 'G': snprintf (tmp, sizeof(tmp), "{ " PR("$0") "; if (NR %% %d == 0 && (getline) > 0) " PR("$0") " }", k); wput (tmp); break;
 			case 'V': snprintf (tmp, sizeof(tmp), "{ " PR("$0") "; if (NR %% %d == 0 && (getline v) > 0) " PR("v") " }", k); wput (tmp); break;
